@@ -58,6 +58,9 @@ RULE += (
     'atures whose width differs between clients (content compared as bytes); interleaved seed'
     'ed streams of one dataset object; half of the client-dataset streams are built from slic'
     'es of longer datasets in use.')
+RULE += (
+    ' '
+    'Also: client ids ending in a NUL byte.')
 ASSUMPTIONS = [
     'batch preprocessors are deterministic and strictly per-example, and all '
     'clients of one stream share dtype and trailing shape per feature '
